@@ -143,13 +143,34 @@ pub fn mediate(forest: &[RNode]) -> Vec<RFound> {
 	out
 }
 
+#[derive(Default, Clone, Copy, Debug)]
+pub struct Stats { pub conflict_equal_depth: bool, pub conflict_different_depth: bool, pub diamond: bool, pub pruned_subtree: bool }
+
+/// what kinds of collisions the unmediated graph contains (for the evidence: generator distribution)
+pub fn stats(forest: &[RNode]) -> Stats {
+	fn collect<'a>(n: &'a RNode, depth: usize, out: &mut Vec<(usize, &'a RNode)>) { out.push((depth, n)); for c in &n.children { collect(c, depth + 1, out); } }
+	let mut all = vec![];
+	for t in forest { collect(t, 1, &mut all); }
+	let mut st = Stats::default();
+	for (i, (d1, a)) in all.iter().enumerate() {
+		for (d2, b) in all.iter().skip(i + 1) {
+			if collision_id(&a.coord) != collision_id(&b.coord) { continue; }
+			if a.coord.version == b.coord.version { st.diamond = true; }
+			else if d1 == d2 { st.conflict_equal_depth = true; } else { st.conflict_different_depth = true; }
+			if !a.children.is_empty() || !b.children.is_empty() { st.pruned_subtree = true; }
+		}
+	}
+	st
+}
+
 /// the whole documented resolution; `Err(())` when a needed POM is missing/unusable; `None` in `size` when too big
-pub fn resolve(u: &Universe, limit: usize) -> (Result<Vec<RFound>, ()>, usize) {
+pub fn resolve(u: &Universe, limit: usize) -> (Result<Vec<RFound>, ()>, usize) { let (a, b, _) = resolve_stats(u, limit); (a, b) }
+pub fn resolve_stats(u: &Universe, limit: usize) -> (Result<Vec<RFound>, ()>, usize, Stats) {
 	let mut r = Ref::new(u);
 	let mut count = 0usize;
 	let mut forest = vec![];
 	for (c, s) in &u.roots {
-		match r.tree(c, *s, 0, &mut count, limit) { Ok(t) => forest.push(t), Err(()) => return (Err(()), count) }
+		match r.tree(c, *s, 0, &mut count, limit) { Ok(t) => forest.push(t), Err(()) => return (Err(()), count, Stats::default()) }
 	}
-	(Ok(mediate(&forest)), count)
+	(Ok(mediate(&forest)), count, stats(&forest))
 }
